@@ -149,6 +149,9 @@ func runSameFace(c *core.Ctx) []core.Obligation {
 				obs = append(obs, sameFaceSite(c, info, fd, call, construct, fobj.FullName(), maxSize))
 				return true
 			})
+			if fd.Name.Name == "VertexNeighbors" && n > 0 {
+				obs = append(obs, sameFaceExact(c, info, fd, fobj.FullName(), maxSize))
+			}
 		}
 	}
 	return obs
@@ -455,4 +458,56 @@ func sfObjSize(info *types.Info, assigns map[types.Object][]ast.Expr, o types.Ob
 		pos, neg = pos || p, neg || n
 	}
 	return pos, neg, true
+}
+
+
+// sameFaceExact (after round-6 seed C10-r6m2, `(i - size) >= 0` simplified to `i > size`): in VertexNeighbors the
+// same-face flags are not only a licence to skip the wrap-around conversion - `if isame || jsame` also decides whether
+// the vertex has a fourth neighbour (only a cube vertex has three). A flag that is false for an in-face coordinate
+// therefore drops a neighbour, and Cap.CellUnionBound, which is made of exactly these cells, no longer covers the cap.
+// Every comparison the flags are built from must be tight: shifted coordinate >= 0, or shifted coordinate < MaxSize.
+func sameFaceExact(c *core.Ctx, info *types.Info, fd *ast.FuncDecl, fname string, maxSize int64) core.Obligation {
+	const construct = "exact:VertexNeighbors:fourth-neighbour"
+	site := c.Pos(fd.Pos())
+	assigns := collectAssigns(info, fd)
+	var cond ast.Expr
+	ast.Inspect(fd.Body, func(n ast.Node) bool {
+		if ifs, ok := n.(*ast.IfStmt); ok && cond == nil {
+			if b, ok := ast.Unparen(ifs.Cond).(*ast.BinaryExpr); ok && b.Op == token.LOR {
+				cond = ifs.Cond
+			}
+		}
+		return true
+	})
+	if cond == nil {
+		return core.Ob("R-SAMEFACE", construct, site, fname, core.Violated, "unresolved anchor: the test that decides whether the vertex has a fourth neighbour was not found")
+	}
+	alts, ok := sfExpand(info, assigns, cond, map[types.Object]bool{})
+	if !ok || len(alts) == 0 {
+		return core.Ob("R-SAMEFACE", construct, site, fname, core.Undecided, "the condition "+types.ExprString(cond)+" could not be expanded into comparisons against constants")
+	}
+	natoms := 0
+	for _, alt := range alts {
+		for _, a := range alt {
+			natoms++
+			neg := false
+			for _, cf := range a.vars {
+				if cf < 0 {
+					neg = true
+				}
+			}
+			if a.ge && (a.k != 0 || !neg) {
+				return core.Ob("R-SAMEFACE", construct, site, fname, core.Violated,
+					fmt.Sprintf("the flag is built from %s, which is not the tight test 'coordinate - size >= 0': for the coordinate that lies exactly one cell inside the face the flag is wrong, `%s` drops the fourth vertex neighbour (or invents one at a cube vertex), and Cap.CellUnionBound loses a cell of its covering", a.text, types.ExprString(cond)))
+			}
+			if !a.ge && (a.k != maxSize || neg || len(a.vars) < 2) {
+				return core.Ob("R-SAMEFACE", construct, site, fname, core.Violated,
+					fmt.Sprintf("the flag is built from %s, which is not the tight test 'coordinate + size < MaxSize': for the coordinate that lies exactly one cell inside the face the flag is wrong, `%s` drops the fourth vertex neighbour (or invents one at a cube vertex), and Cap.CellUnionBound loses a cell of its covering", a.text, types.ExprString(cond)))
+			}
+		}
+	}
+	if natoms < 4 {
+		return core.Ob("R-SAMEFACE", construct, site, fname, core.Violated, fmt.Sprintf("unresolved anchor: only %d comparisons behind %s, 4 expected", natoms, types.ExprString(cond)))
+	}
+	return core.Ob("R-SAMEFACE", construct, site, fname, core.Discharged, fmt.Sprintf("%d comparisons behind `%s`, each the tight in-face test of the shifted coordinate", natoms, types.ExprString(cond)))
 }
